@@ -311,9 +311,100 @@ Fixpoint all_closed (calls : list call) : bool :=
 Definition wire_opt (o : option (res (list Z))) : list Z :=
   match o with None => [ST_BADCASE] | Some r => wire (fun x => x) r end.
 
+(* ---------------------------------------------------------------------------------------------- accounts
+   The password as the server's entry points hand it on (op 7). bbs.Register / bbs.Login / bbs.CheckPasswd /
+   bbs.ChangePasswd — and the gin handlers in front of them — turn the string they are given into []byte(passwd) and
+   pass it, unchanged, to ptt.Register (cmbbs.GenPasswd, record written), ptt.Login / ptt.CheckPasswd
+   (cmbbs.CheckPasswd against the stored hash) and ptt.ChangePasswd (cmbbs.CheckPasswd on the old password, then
+   cmbbs.GenPasswd of the new one, hash written). An account is its stored hash; [None] = no record with that id. *)
+Inductive aop : Type :=
+| ARegister (u : nat) (pw salt : list Z)         (* bbs.Register(id_u, pw, ...); salt = the two bytes GenPasswd drew *)
+| ALogin (u : nat) (pw : list Z)                 (* bbs.Login(id_u, pw, ip) *)
+| ACheck (u : nat) (pw : list Z)                 (* bbs.CheckPasswd(id_u, pw, ip) *)
+| AChange (u : nat) (old new salt : list Z).     (* bbs.ChangePasswd(id_u, old, new, ip) *)
+
+Definition accounts : Type := list (option (list Z)).
+
+Definition stored_of (st : accounts) (u : nat) : option (list Z) := nth u st None.
+Fixpoint set_stored (st : accounts) (u : nat) (h : list Z) : accounts :=
+  match st with
+  | [] => []
+  | x :: r => match u with O => Some h :: r | S u' => x :: set_stored r u' h end
+  end.
+
+(* the one comparison every entry point that asks for a password makes: cmbbs.CheckPasswd(stored hash of the account,
+   the bytes of the string the caller gave); no record: refused *)
+Definition accepts (st : accounts) (u : nat) (pw : list Z) : res bool :=
+  match stored_of st u with
+  | None => Ok false
+  | Some h => check_passwd h pw
+  end.
+
+(* one operation: the accounts afterwards and whether it was accepted *)
+Definition astep (st : accounts) (o : aop) : res (accounts * bool) :=
+  match o with
+  | ARegister u pw salt =>
+      (* NewRegister: GenPasswd first, then SetupNewUser refuses an id that exists *)
+      res_bind (gen_passwd pw salt) (fun h =>
+        if Nat.ltb u (length st) then
+          match stored_of st u with
+          | Some _ => Ok (st, false)
+          | None => Ok (set_stored st u h, true)
+          end
+        else Ok (st, false))
+  | ALogin u pw => res_map (fun b => (st, b)) (accepts st u pw)
+  | ACheck u pw => res_map (fun b => (st, b)) (accepts st u pw)
+  | AChange u old new salt =>
+      res_bind (accepts st u old) (fun good =>
+        if good then res_map (fun h => (set_stored st u h, true)) (gen_passwd new salt)
+        else Ok (st, false))
+  end.
+
+(* a history: per operation the verdict and the accounts after it; the first panic ends the case *)
+Fixpoint arun (st : accounts) (ops : list aop) : res (list (bool * accounts)) :=
+  match ops with
+  | [] => Ok []
+  | o :: rest =>
+      res_bind (astep st o) (fun r =>
+        res_map (cons (snd r, fst r)) (arun (fst r) rest))
+  end.
+(* the accounts after a history (of operations that all return) *)
+Fixpoint after (st : accounts) (ops : list aop) : res accounts :=
+  match ops with
+  | [] => Ok st
+  | o :: rest => res_bind (astep st o) (fun r => after (fst r) rest)
+  end.
+
+Definition wire_accounts (st : accounts) : list Z :=
+  flat_map (fun x => match x with None => [0] | Some h => lenZ h :: h end) st.
+Definition wire_arun (l : list (bool * accounts)) : list Z :=
+  flat_map (fun r => wire_bool (fst r) ++ wire_accounts (snd r)) l.
+
+(* wire: groups k | u | a | b | s, five per operation; k + 10 = the same operation through the gin handler *)
+Fixpoint parse_aops (g : list (list Z)) : option (list aop) :=
+  match g with
+  | [] => Some []
+  | [k] :: [u] :: a :: b :: s :: rest =>
+      match parse_aops rest with
+      | None => None
+      | Some os =>
+          if (0 <=? u) && (u <? 3) then
+            let k := if 10 <? k then k - 10 else k in
+            let n := Z.to_nat u in
+            if k =? 1 then Some (ARegister n a s :: os)
+            else if k =? 2 then Some (ALogin n a :: os)
+            else if (k =? 3) || (k =? 5) then Some (ACheck n a :: os)
+            else if k =? 4 then Some (AChange n a b s :: os)
+            else None
+          else None
+      end
+  | _ => None
+  end.
+
 (* wire: op 1 Fcrypt(pw, salt); op 2 GenPasswd(pw) with the drawn salt as third group; op 3 CheckPasswd(stored, pw);
    op 4 the crypt(3) specification of Model/C02_DesSpec.v (status 3 1: salt outside the alphabet);
-   op 5 a session k|a|b|k|a|b|...; op 6 rounds|k|a|b|... the same calls concurrently *)
+   op 5 a session k|a|b|k|a|b|...; op 6 rounds|k|a|b|... the same calls concurrently;
+   op 7 h0|k|u|a|b|s|... a history of account operations, account 0 starting with the stored hash h0 *)
 Definition run_case (args : list (list Z)) : list Z :=
   match args with
   | [[1]; pw; salt] => wire (fun h => h) (fcrypt pw salt)
@@ -331,6 +422,12 @@ Definition run_case (args : list (list Z)) : list Z :=
       | Some cs =>
           if (0 <=? rounds) && (rounds <=? 1000000) && (Nat.leb (length cs) 16) && all_closed cs
           then wire_opt (wire_concurrent cs) else [ST_BADCASE]
+      end
+  | [7] :: h0 :: g =>
+      match parse_aops g with
+      | None => [ST_BADCASE]
+      | Some os =>
+          if (length h0 =? 14)%nat then wire wire_arun (arun [Some h0; None; None] os) else [ST_BADCASE]
       end
   | _ => [ST_BADCASE]
   end.
